@@ -20,12 +20,12 @@ CALL_BUDGET_S = 4
 META = {
     "rule": "every numpy callable registered by numpoly (function and ufunc registries, read at run time) x 14 generic "
             "argument patterns, every numpoly poly-function / constructor / operator / method / property, pickling and str, "
-            "x 11 operand forms chosen to make internal aliasing possible (operands already aligned with each other, the "
+            "x 13 operand forms chosen to make internal aliasing possible (operands already aligned with each other, the "
             "identical object passed twice, overlapping views of one buffer, 0-d, transposed views, bool/int/float/complex "
             "dtypes, polynomial mixed with ndarray/list); byte-level snapshots of every argument are compared before and "
             "after each call, whether it returned or raised; out= targets and the copyto destination are the only exemption "
             "and must be the only thing that changed. distinct = (callable, pattern, operand form).",
-    "bounds": {"operand_forms": 11, "patterns": 14},
+    "bounds": {"operand_forms": 13, "patterns": 14},
     "assumptions": ["an argument is observed through shape, strides, dtype, names, keys and raw bytes (base-class view)"],
 }
 
@@ -70,6 +70,16 @@ def operand_forms():
         b0 = build_checked(spec(("q1", "q2"), (3,), [((1, 1), [1, 0, 2]), ((0, 2), [0, 1, 1])]))
         return numpoly.align_polynomials(a0, b0)
     forms.append(("outputs of align_polynomials", aligned_by_library))
+
+    def noconst():
+        t = [((1, 0), [1, 2, 3]), ((1, 1), [2, 0, -1]), ((2, 0), [0, 1, 1])]
+        u = [((1, 0), [3, 1, 2]), ((1, 1), [1, 1, 0]), ((2, 0), [2, 0, 5])]
+        return build_checked(spec(("q0", "q1"), (3,), t)), build_checked(spec(("q0", "q1"), (3,), u))
+    forms.append(("aligned, every term contains q0 (no constant term)", noconst))
+
+    def monomials():
+        return build_checked(spec(("q0", "q1"), (), [((2, 1), 3.0)], "f8")), build_checked(spec(("q0", "q1"), (), [((2, 1), -1.5)], "f8"))
+    forms.append(("single monomials 0-d float", monomials))
 
     def same():
         a = build_checked(dense((3,), "i8", 0))
@@ -148,7 +158,8 @@ def extra_calls():
         ("poly_remainder", lambda a, b: numpoly.poly_remainder(a, numpoly.symbols("q0") ** 2)),
         ("call(1,2)", lambda a, b: a(1, 2)), ("call(q0=b)", lambda a, b: a(q0=b)), ("call(q1=3)", lambda a, b: a(q1=3)),
         ("call(b, a)", lambda a, b: a(b, a)),
-        ("derivative", lambda a, b: numpoly.derivative(a, "q0")), ("gradient", lambda a, b: numpoly.gradient(a)),
+        ("derivative", lambda a, b: numpoly.derivative(a, "q0")), ("derivative q1", lambda a, b: numpoly.derivative(a, "q1")),
+        ("derivative twice", lambda a, b: numpoly.derivative(a, 0, 0)), ("gradient", lambda a, b: numpoly.gradient(a)),
         ("hessian", lambda a, b: numpoly.hessian(a)),
         ("lead_exponent", lambda a, b: numpoly.lead_exponent(a)), ("lead_coefficient", lambda a, b: numpoly.lead_coefficient(a)),
         ("decompose", lambda a, b: numpoly.decompose(a)), ("set_dimensions 3", lambda a, b: numpoly.set_dimensions(a, 3)),
